@@ -1,6 +1,7 @@
 """C14 — WMA age grading is defined, consistent and spelling-independent on its domain."""
 import json
 import math
+from fractions import Fraction
 import os
 import random
 
@@ -232,6 +233,26 @@ def examine(case):
                 if rv[:2] != gr[:2]:
                     out.append(V('grade-equals-standard-ratio', ['grade-value', label], dict(base, perf=p), rv[:3], gr[1]))
                     return out
+        if timed:
+            # performances finer than a hundredth, as text in seconds and in clock form (m:ss.xxx): the grade is that of the
+            # value written, and of two such performances the better one grades higher
+            p0 = perfs[len(perfs) // 2]
+            fine = [p0 + 0.006, p0 + 0.004, p0 - 0.0015]          # from worse to better
+            prevg = None
+            for q in fine:
+                qt = '%.4f' % q
+                mm, ss = divmod(Fraction(qt), 60)
+                clock = '%d:%s' % (mm, ('%07.4f' % float(ss))) if Fraction(qt) >= 60 else qt
+                want = std / float(Fraction(qt))
+                for label, txt in (('text-thousandths', qt), ('clock-thousandths', clock)):
+                    gq = f_grade(year, g, age, event, txt)
+                    if gq[0] != 'ret' or not math.isclose(gq[1], want, rel_tol=1e-9):
+                        out.append(V('grade-equals-standard-ratio', ['grade-value', label], dict(base, perf=txt), gq[:3], want))
+                        return out
+                if prevg is not None and not gq[1] > prevg:
+                    out.append(V('better-grades-higher', ['grade-monotone', 'thousandths'], dict(base, perf=clock), [prevg, gq[1]]))
+                    return out
+                prevg = gq[1]
         if year != 'athlon':
             # the table year in its other carriers (text, left out): whichever table such a carrier selects, the three entry
             # points select the SAME one - the grade still equals best / factor / performance taken with that same argument
